@@ -3,32 +3,67 @@
 // Explicit-state breadth-first search (engine E2) over the REAL track bookkeeping: the state
 // is a real Stepper<host> (box-in-box geometry, scripted physics in "bookkeeping mode" with a
 // huge cross section so that every active track interacts in every step).  One transition =
-// one Stepper call with (a) p in {0,1,2} new primaries of alternating events and (b) a
-// complete list of interaction outcomes, one per active track, from the 8-letter alphabet
-// {die|survive} x {0,1,2 secondaries} x {sub-cut secondary} (problems/loop_zoo.hh).
+// one Stepper call with (a) p in {0,1,2} new primaries (two primaries of one call belong to
+// the two DIFFERENT events 0 and 1 = max_events-1; the first event alternates from call to
+// call) and (b) a complete list of interaction outcomes, one per active track, from the
+// 11-letter alphabet of problems/loop_zoo.hh bk_outcomes_ext():
+//   {die|survive} x {0,1,2 secondaries (gamma / e-)} x {sub-cut secondary}  (letters 0-9) and
+//   "unchanged" (letter a: Interaction::from_unchanged(), the track's secondaries span of the
+//   previous step is NOT rewritten by the interactor).
 // States are operation histories replayed on a fresh Stepper; canon(state) = every datum the
 // slot/initializer index arithmetic reads (per-slot status + charge class, the queue of
-// pending initializers as charge classes, counters).  Track/event ids are abstracted away;
-// the abstraction is tested while searching: the first two histories that reach the same
-// canon are both expanded and must have identical successor canons for every operation.
+// pending initializers as charge classes, counters).  Track/event ids are abstracted away.
+// The abstraction is tested while searching: the first two histories that reach the same
+// canon are both expanded, and for every injection count p the SET of successor canons over
+// all outcome vectors must be identical (sets, because the query order of the outcome vector
+// is the thread order, which the re-indexing track orders permute).
+//
+// The search runs in ONE process: every child of every expanded node is evaluated (worker
+// threads, one private problem per thread), the frontier is built sequentially in enumeration
+// order, so the result does not depend on the thread schedule.
 //
 // Oracle = reference ledger (std::map) built only from the public step stream
 // (StepInterface records), the StepperResult of every call and the outcomes the explorer
-// chose; see Ledger below for the invariants.
+// chose; see Ledger below for the invariants.  In addition:
+//   * species and start point of every child are compared with what its parent emitted
+//     (per-parent multiset of (kind, position of the emitting step));
+//   * a capacity error (celeritas::RuntimeError out of a Stepper call) is legitimate only if
+//     the ledger says that the pending initializers really exceed the capacity Q:
+//       need = queued_prev + injected                                  (thrown by insert)
+//       need = queued_prev + injected - tracks started in this call
+//              + surviving secondaries of this call
+//              - [order != init_charge] dying parents with >= 1 surviving secondary (their
+//                first secondary is initialised in place)                (thrown at `end`)
+//     need <= Q  => "tracks:spurious-capacity-error" (exact fit must work); need > Q: the
+//     history is cut (that regime is C16's).
 #include <algorithm>
+#include <atomic>
+#include <csignal>
+#include <cstring>
 #include <map>
 #include <set>
 #include <sstream>
 #include <string>
+#include <thread>
 #include <unordered_map>
 #include <vector>
 
 #include "engine/harness.hh"
 #include "problems/loop_zoo.hh"
+#if defined(__SANITIZE_ADDRESS__)
+#    include <sanitizer/asan_interface.h>
+#    include <sanitizer/common_interface_defs.h>
+#endif
 
 using namespace celeritas;
 using vf::fmt;
 using vf::LoopProblem;
+
+static constexpr int NLET = vf::bk_num_outcomes_ext;
+static vf::BkOutcome const& letter(int c)
+{
+    return vf::bk_outcomes_ext()[c];
+}
 
 //---------------------------------------------------------------------------//
 struct StepOp
@@ -38,6 +73,14 @@ struct StepOp
 };
 using History = std::vector<StepOp>;
 
+static char letter_char(int c)
+{
+    return c < 10 ? char('0' + c) : char('a' + (c - 10));
+}
+static int letter_index(char ch)
+{
+    return ch >= 'a' ? 10 + (ch - 'a') : ch - '0';
+}
 static std::string to_string(History const& h)
 {
     std::string s;
@@ -45,7 +88,7 @@ static std::string to_string(History const& h)
     {
         s += fmt("i%d:", op.inject);
         for (int c : op.choices)
-            s += char('0' + c);
+            s += letter_char(c);
         s += "/";
     }
     return s;
@@ -62,7 +105,7 @@ static History parse_history(std::string const& s)
         op.inject = s[i + 1] - '0';
         i += 3;
         while (i < s.size() && s[i] != '/')
-            op.choices.push_back(s[i++] - '0');
+            op.choices.push_back(letter_index(s[i++]));
         ++i;
         h.push_back(op);
     }
@@ -93,6 +136,13 @@ struct ScriptChooser : vf::LoopChooser
 //---------------------------------------------------------------------------//
 // Reference ledger
 //---------------------------------------------------------------------------//
+using Pos = std::array<double, 3>;
+struct Emitted
+{
+    int kind;  // 0 gamma, 1 e-
+    Pos pos;  // where the parent stood when it emitted (post-step point of that step)
+};
+
 struct TrackInfo
 {
     unsigned parent{vf::no_id};
@@ -101,6 +151,7 @@ struct TrackInfo
     unsigned slot{0};
     int kind{0};
     unsigned children_expected{0}, children_seen{0};
+    std::vector<Emitted> pending;  // emitted surviving secondaries that have not started yet
 };
 
 struct Ledger
@@ -118,16 +169,17 @@ struct Ledger
 
     // process the records and queries of one Stepper call
     void step(std::vector<vf::StepRec> const& recs, size_t begin, std::vector<Query> const& queries,
-              StepperResult const& res, int injected, unsigned inject_event, unsigned nslots,
-              int gamma_id)
+              StepperResult const& res, std::vector<unsigned> const& inject_events,
+              unsigned nslots, int gamma_id, int electron_id)
     {
-        if (injected)
+        int const injected = int(inject_events.size());
+        for (unsigned ev : inject_events)
         {
-            primaries_injected[inject_event] += injected;
-            created += injected;
+            primaries_injected[ev] += 1;
+            created += 1;
         }
         std::set<unsigned> slots_seen;
-        std::set<std::pair<unsigned, unsigned>> stepped;
+        std::map<std::pair<unsigned, unsigned>, size_t> stepped;  // key -> record index
         for (size_t i = begin; i < recs.size(); ++i)
         {
             auto const& r = recs[i];
@@ -135,16 +187,17 @@ struct Ledger
             if (!slots_seen.insert(r.slot).second)
                 fail("tracks:slot-holds-two-tracks",
                      fmt("slot %u delivered two step records in one step", r.slot));
-            if (!stepped.insert(key).second)
+            if (!stepped.emplace(key, i).second)
                 fail("tracks:track-stepped-twice",
                      fmt("event %u track %u delivered two records in one step", r.event, r.track));
+            int const rkind = r.particle == gamma_id ? 0 : r.particle == electron_id ? 1 : 2;
             auto it = tracks.find(key);
             if (it == tracks.end())
             {
                 TrackInfo t;
                 t.parent = r.parent;
                 t.slot = r.slot;
-                t.kind = r.particle == gamma_id ? 0 : 1;
+                t.kind = rkind;
                 if (r.step_count != 1)
                     fail("tracks:first-step-count",
                          fmt("event %u track %u first record has step count %u", r.event, r.track,
@@ -169,6 +222,52 @@ struct Ledger
                                  "is its child number %u",
                                  r.event, r.parent, pit->second.children_expected, r.track,
                                  pit->second.children_seen));
+                    else
+                    {
+                        // the child must BE one of the secondaries its parent emitted: same
+                        // species, starting where the parent stood in the emitting step
+                        auto& pend = pit->second.pending;
+                        auto exact = pend.end(), same_kind = pend.end();
+                        for (auto e = pend.begin(); e != pend.end(); ++e)
+                        {
+                            if (e->kind != rkind)
+                                continue;
+                            if (same_kind == pend.end())
+                                same_kind = e;
+                            if (e->pos == r.pre.pos)
+                            {
+                                exact = e;
+                                break;
+                            }
+                        }
+                        if (exact != pend.end())
+                            pend.erase(exact);
+                        else if (same_kind != pend.end())
+                        {
+                            fail("tracks:child-position",
+                                 fmt("event %u track %u (child of %u, kind %d) starts at "
+                                     "[%.17g,%.17g,%.17g]; its parent emitted that kind at "
+                                     "[%.17g,%.17g,%.17g]",
+                                     r.event, r.track, r.parent, rkind, r.pre.pos[0], r.pre.pos[1],
+                                     r.pre.pos[2], same_kind->pos[0], same_kind->pos[1],
+                                     same_kind->pos[2]));
+                            pend.erase(same_kind);
+                        }
+                        else
+                        {
+                            std::string have;
+                            for (auto const& e : pend)
+                                have += e.kind ? "e-" : "g";
+                            fail("tracks:child-species",
+                                 fmt("event %u track %u is a %s but the not yet started "
+                                     "secondaries of its parent %u are {%s}",
+                                     r.event, r.track,
+                                     rkind == 0   ? "gamma"
+                                     : rkind == 1 ? "e-"
+                                                  : "e+",
+                                     r.parent, have.c_str()));
+                        }
+                    }
                 }
                 t.steps = 1;
                 tracks[key] = t;
@@ -184,6 +283,10 @@ struct Ledger
                     fail("tracks:step-count-not-consecutive",
                          fmt("event %u track %u step count %u after %u", r.event, r.track,
                              r.step_count, t.steps));
+                if (rkind != t.kind)
+                    fail("tracks:species-changed",
+                         fmt("event %u track %u was kind %d and is now kind %d", r.event, r.track,
+                             t.kind, rkind));
                 t.steps = r.step_count;
             }
         }
@@ -202,18 +305,22 @@ struct Ledger
                 fail("tracks:interacted-twice",
                      fmt("event %u track %u interacted twice in one step", q.event, q.track));
             auto it = tracks.find(key);
-            if (it == tracks.end() || !stepped.count(key))
+            auto sit = stepped.find(key);
+            if (it == tracks.end() || sit == stepped.end())
             {
                 fail("tracks:interaction-without-step",
                      fmt("event %u track %u interacted but delivered no step record", q.event,
                          q.track));
                 continue;
             }
-            auto const& o = vf::bk_outcomes()[q.chosen];
+            auto const& o = letter(q.chosen);
             TrackInfo& t = it->second;
             unsigned k = o.surviving_secondaries();
             t.children_expected += k;
             created += k;
+            for (int i = 0; i < o.nsec; ++i)
+                if (!o.subcut[i])
+                    t.pending.push_back({o.kinds[i], recs[sit->second].post.pos});
             if (!o.survive)
             {
                 t.alive = false;
@@ -273,33 +380,45 @@ struct Config
 
 struct Replay
 {
-    bool overflow{false};  // capacity exceeded (exception): C16's regime
+    bool overflow{false};  // capacity really exceeded (exception): C16's regime
     std::string canon;
-    int next_queries{-1};  // interactions that the *next* call would execute (probe)
     int last_queries{0};  // interactions executed by the last call of the history
     std::string error;  // ledger violation
     unsigned steps_to_drain{0};
+    unsigned long transitions{0}, drain_steps{0};
+    bool exact_fit{false};  // some call ended with queued == capacity, or was given it
+    bool unchanged_after_emission{false};
+    int asan{0};
 };
+
+static int asan_errors()
+{
+#if defined(__SANITIZE_ADDRESS__)
+    return vf::detail::g_asan_errors;
+#else
+    return 0;
+#endif
+}
 
 struct Sys
 {
-    vf::Run& R;
     Config cfg;
     std::unique_ptr<LoopProblem> P;
 
-    explicit Sys(vf::Run& r, Config c) : R(r), cfg(c)
+    explicit Sys(Config c) : cfg(c)
     {
         vf::LoopConfig lc;
         lc.geometry = 1;
         lc.along = vf::AlongStep::linear;
         lc.slots = cfg.slots;
         lc.init_capacity = cfg.capacity;
-        lc.max_events = 4;
+        lc.max_events = 2;  // both valid event ids (0 and max_events-1) are used
         lc.track_order = cfg.order;
         lc.xs_gamma = 1e5;
         lc.xs_electron = 1e5;
         lc.dedx = 0;
         lc.bookkeeping = true;
+        lc.bookkeeping_extended = true;
         lc.at_rest_annihilation = false;
         lc.secondary_stack_factor = 3;  // 3 x slots >= 2 secondaries per slot: never starved
         P = vf::make_loop_problem(lc);
@@ -333,43 +452,65 @@ struct Sys
         return c;
     }
 
-    // Replay a history on a fresh stepper with the ledger; optionally drain afterwards
-    Replay replay(History const& h, bool drain, bool probe_next)
+    // Replay a history on a fresh stepper with the ledger; optionally drain afterwards.
+    // Touches only this Sys (thread-safe across different Sys objects).
+    Replay replay(History const& h, bool drain)
     {
         Replay out;
+        int const asan0 = asan_errors();
         P->recorder->steps.clear();
         auto st = P->make_stepper();
         st->reseed(UniqueEventId{0});
         Ledger L;
         ScriptChooser ch;
         vf::g_loop_chooser = &ch;
-        int gamma_id = int(P->gamma.unchecked_get());
+        int const gamma_id = int(P->gamma.unchecked_get());
+        int const electron_id = int(P->electron.unchecked_get());
         unsigned next_event = 0;
         size_t stepno = 0;
+        // what the capacity oracle needs when a call throws
+        unsigned queued_prev = 0, alive_prev = 0;
+        int cur_inject = 0;
+        size_t cur_begin = 0;
+        std::set<std::pair<unsigned, unsigned>> emitted_last;  // tracks that emitted in the previous call
         try
         {
             for (auto const& op : h)
             {
                 size_t begin = P->recorder->steps.size();
+                cur_begin = begin;
+                cur_inject = op.inject;
                 ch.script = &op.choices;
                 ch.log.clear();
                 StepperResult res;
-                unsigned ev = next_event;
+                std::vector<unsigned> events;
+                if (queued_prev + op.inject == cfg.capacity && op.inject > 0)
+                    out.exact_fit = true;
                 if (op.inject > 0)
                 {
+                    // primary k: kind k%2 (gamma, e-); the first one belongs to event `ev`, the
+                    // second to the OTHER event: one span with two different event ids
+                    unsigned ev = next_event;
                     std::vector<Primary> prim;
                     for (int k = 0; k < op.inject; ++k)
+                    {
+                        unsigned e = k == 0 ? ev : 1 - ev;
+                        events.push_back(e);
                         prim.push_back(P->primary(k % 2, 1.0, {0.2 + 0.1 * k, 0.1, 0.05},
-                                                  {k ? 0.0 : 1.0, k ? 1.0 : 0.0, 0}, ev));
-                    next_event = (next_event + 1) % 2;
+                                                  {k ? 0.0 : 1.0, k ? 1.0 : 0.0, 0}, e));
+                    }
+                    next_event = 1 - next_event;
                     res = (*st)(make_span(prim));
                 }
                 else
                 {
                     res = (*st)();
                 }
-                R.count("transitions");
-                L.step(P->recorder->steps, begin, ch.log, res, op.inject, ev, cfg.slots, gamma_id);
+                ++out.transitions;
+                if (asan_errors() != asan0)
+                    break;  // reported by the caller; do not go on with damaged memory
+                L.step(P->recorder->steps, begin, ch.log, res, events, cfg.slots, gamma_id,
+                       electron_id);
                 // true numbers from the state
                 auto const& sr = st->state_ref();
                 unsigned alive_true = 0;
@@ -390,34 +531,51 @@ struct Sys
                 out.last_queries = int(ch.log.size());
                 if (op.choices.size() != ch.log.size() && stepno + 1 != h.size())
                     L.fail("harness:choice-count", "replayed prefix consumed a different number of choices");
+                if (ch.log.size() != P->recorder->steps.size() - begin)
+                    L.fail("harness:not-every-active-track-interacted",
+                           fmt("%zu step records but %zu interactions", P->recorder->steps.size() - begin,
+                               ch.log.size()));
+                // coverage: a track that emitted in the previous call and is "unchanged" now
+                std::set<std::pair<unsigned, unsigned>> emitted_now;
+                for (auto const& q : ch.log)
+                {
+                    auto const& o = letter(q.chosen);
+                    if (o.unchanged && emitted_last.count({q.event, q.track}))
+                        out.unchanged_after_emission = true;
+                    if (o.nsec > 0)
+                        emitted_now.insert({q.event, q.track});
+                }
+                emitted_last.swap(emitted_now);
+                if (res.queued == cfg.capacity)
+                    out.exact_fit = true;
+                queued_prev = res.queued;
+                alive_prev = res.alive;
                 ++stepno;
             }
             out.canon = canon(*st);
-            if (probe_next || drain)
+            if (drain && asan_errors() == asan0)
             {
                 // continue with the all-die default until the loop drains
                 static std::vector<int> const none;
                 ch.script = &none;
                 unsigned guard = 0;
                 StepperResult res;
-                res.alive = 1;
-                bool first = true;
                 auto const& cnt0 = st->state().counters();
                 bool more = cnt0.num_alive > 0 || cnt0.num_initializers > 0;
                 while (more)
                 {
                     size_t begin = P->recorder->steps.size();
+                    cur_begin = begin;
+                    cur_inject = 0;
                     ch.log.clear();
                     res = (*st)();
-                    R.count("drain_steps");
-                    if (first)
-                    {
-                        out.next_queries = int(ch.log.size());
-                        first = false;
-                        if (!drain)
-                            break;
-                    }
-                    L.step(P->recorder->steps, begin, ch.log, res, 0, 0, cfg.slots, gamma_id);
+                    ++out.drain_steps;
+                    if (asan_errors() != asan0)
+                        break;
+                    L.step(P->recorder->steps, begin, ch.log, res, {}, cfg.slots, gamma_id,
+                           electron_id);
+                    queued_prev = res.queued;
+                    alive_prev = res.alive;
                     more = bool(res);
                     if (++guard > 4 * (cfg.slots + cfg.capacity) + 16)
                     {
@@ -427,24 +585,140 @@ struct Sys
                         break;
                     }
                 }
-                if (first)
-                    out.next_queries = 0;
                 out.steps_to_drain = guard;
-                if (drain && !more)
+                if (!more)
                     L.finish();
             }
         }
         catch (RuntimeError const& e)
         {
-            out.overflow = true;
+            // Is the capacity really exceeded?  (ledger only: what was pending before the call,
+            // what the call was given, how many tracks it started = records - alive before,
+            // what the interactions of the call emitted)
+            auto const& recs = P->recorder->steps;
+            size_t const nrec = recs.size() - cur_begin;
+            bool const in_insert = (nrec == 0 && ch.log.empty());
+            long need = long(queued_prev) + cur_inject;
+            if (!in_insert)
+            {
+                need -= long(nrec) - long(alive_prev);
+                for (auto const& q : ch.log)
+                {
+                    auto const& o = letter(q.chosen);
+                    int k = o.surviving_secondaries();
+                    need += k;
+                    if (!o.survive && k > 0 && cfg.order != TrackOrder::init_charge)
+                        --need;
+                }
+            }
+            if (need <= long(cfg.capacity))
+            {
+                std::string what = e.what();
+                auto nl = what.find("celeritas:");
+                // (own signature for errors that are not about the capacity at all, e.g. a valid
+                // event id rejected)
+                L.fail(what.find("capacity") != std::string::npos ? "tracks:spurious-capacity-error"
+                                                                  : "tracks:spurious-runtime-error",
+                       fmt("call %zu (%d primaries, %u queued and %u alive before it, %zu tracks "
+                           "stepped, thrown %s) needs %ld pending initializers, capacity %u, but "
+                           "a RuntimeError was thrown: %s",
+                           stepno, cur_inject, queued_prev, alive_prev, nrec,
+                           in_insert ? "before the step" : "at the end of the step", need,
+                           cfg.capacity, what.substr(0, 400).c_str()));
+                (void)nl;
+            }
+            else
+                out.overflow = true;
+        }
+        catch (std::exception const& e)
+        {
+            L.fail("tracks:unexpected-exception", std::string(e.what()).substr(0, 600));
         }
         vf::g_loop_chooser = nullptr;
         out.error = L.error;
+        out.asan = asan_errors() - asan0;
         return out;
     }
 };
 
 //---------------------------------------------------------------------------//
+// crash attribution with worker threads: the crashing thread's own case id
+static thread_local char t_case[4096] = "";
+static void on_fatal_mt(int sig)
+{
+    if (t_case[0])
+    {
+        size_t n = strnlen(t_case, sizeof(t_case) - 1);
+        memcpy(vf::detail::g_case, t_case, n);
+        vf::detail::g_case[n] = 0;
+    }
+    vf::detail::on_fatal(sig);
+}
+
+#if defined(__SANITIZE_ADDRESS__)
+//! AddressSanitizer ends the process on its own (fatal report / internal CHECK after wild
+//! writes): leave a crash record naming the dying thread's history, so that the driver reports
+//! a violation (asan:tracks) instead of a broken check
+static void on_asan_death()
+{
+    if (t_case[0])
+    {
+        size_t n = strnlen(t_case, sizeof(t_case) - 1);
+        memcpy(vf::detail::g_case, t_case, n);
+        vf::detail::g_case[n] = 0;
+    }
+    vf::detail::write_crash("ASAN", 0);
+    _exit(5);
+}
+//! Called by AddressSanitizer with the text of every report, BEFORE the offending access is
+//! executed: the report becomes a violation of the history the reporting thread is running and
+//! the run ends in an orderly way instead of going on with memory that is about to be damaged.
+static vf::Run* g_run = nullptr;
+static void on_asan_report(char const* text)
+{
+    static std::atomic<bool> entered{false};
+    if (entered.exchange(true) || !g_run)
+        return;
+    std::string t = text ? text : "";
+    g_run->violation("tracks:asan-report", t_case[0] ? t_case : vf::detail::g_case,
+                     "AddressSanitizer: " + t.substr(0, 1500));
+    g_run->end_case();
+    g_run->cap_hit("run stopped after its first AddressSanitizer report");
+    int rc = g_run->finish();
+    fflush(nullptr);
+    _exit(rc);
+}
+#endif
+
+template<class F>
+static void parallel_for(size_t n, unsigned nthreads, F&& f)
+{
+    if (n == 0)
+        return;
+    if (nthreads <= 1 || n == 1)
+    {
+        for (size_t i = 0; i < n; ++i)
+            f(i, 0u);
+        return;
+    }
+    std::atomic<size_t> next{0};
+    std::vector<std::thread> th;
+    unsigned const nt = unsigned(std::min<size_t>(nthreads, n));
+    for (unsigned t = 0; t < nt; ++t)
+        th.emplace_back([&, t] {
+            for (;;)
+            {
+                size_t i = next.fetch_add(1);
+                if (i >= n)
+                    break;
+                f(i, t);
+            }
+            t_case[0] = 0;
+        });
+    for (auto& x : th)
+        x.join();
+}
+
 static void enumerate_choices(int nq, std::vector<std::vector<int>>* out)
 {
     std::vector<int> cur(nq, 0);
@@ -452,36 +726,31 @@ static void enumerate_choices(int nq, std::vector<std::vector<int>>* out)
     {
         out->push_back(cur);
         int i = 0;
-        while (i < nq && ++cur[i] == vf::bk_num_outcomes)
+        while (i < nq && ++cur[i] == NLET)
             cur[i++] = 0;
         if (i == nq)
             break;
     }
 }
 
-static void search(vf::Run& R, Config cfg, int max_depth, int max_primaries, uint64_t* shard_index)
+struct Mismatch
 {
-    Sys sys(R, cfg);
-    std::string const cname = cfg.name();
-    struct Node
-    {
-        History h;
-        int primaries;
-    };
-    std::vector<Node> frontier = {{{}, 0}};
-    std::unordered_map<std::string, int> seen;  // canon -> times expanded
-    std::unordered_map<std::string, std::vector<std::string>> succ_of;  // bisimulation test
-    seen["<init>"] = 1;
-    // replay determinism: the same history twice gives the same canon
-    bool checked_determinism = false;
+    std::string text;
+};
 
+static void search(vf::Run& R, Config cfg, int max_depth, int max_primaries, unsigned nthreads,
+                   Mismatch* mismatch)
+{
+    std::string const cname = cfg.name();
     if (R.replay())
     {
         std::string rc = R.replay_case();
         if (rc.compare(0, cname.size() + 1, cname + "|") != 0)
             return;
+        R.begin_case(rc, 600);
+        Sys sys(cfg);
         History h = parse_history(rc.substr(cname.size() + 1));
-        auto rp = sys.replay(h, true, false);
+        auto rp = sys.replay(h, true);
         fprintf(stderr, "replay %s: canon=%s overflow=%d error=%s\n", rc.c_str(), rp.canon.c_str(),
                 int(rp.overflow), rp.error.c_str());
         for (auto const& r : sys.P->recorder->steps)
@@ -493,90 +762,246 @@ static void search(vf::Run& R, Config cfg, int max_depth, int max_primaries, uin
             auto bar = rp.error.find('|');
             R.violation(rp.error.substr(0, bar), rc, rp.error.substr(bar + 1));
         }
+        if (rp.asan)
+            R.violation("tracks:asan-report", rc, "AddressSanitizer reported an error");
         R.count("evaluations");
         return;
     }
 
+    std::vector<std::unique_ptr<Sys>> sys;
+    for (unsigned t = 0; t < nthreads; ++t)
+        sys.push_back(std::make_unique<Sys>(cfg));
+
+    struct Node
+    {
+        History h;
+        int primaries;
+        std::string canon;
+        int occurrence;  // 1 or 2: which history of that canon this is
+    };
+    std::vector<Node> frontier = {{{}, 0, "<init>", 1}};
+    std::unordered_map<std::string, int> seen;  // canon -> histories kept for expansion
+    // bisimulation test: successor sets of the first expanded history of each canon
+    std::unordered_map<std::string, std::map<int, std::set<std::string>>> succ_of;
+    seen["<init>"] = 1;
+    bool checked_determinism = false;
+
+    struct Task
+    {
+        size_t node;
+        int inject;
+        std::vector<int> choices;
+        Replay rp;
+    };
+    struct Probe
+    {
+        size_t node;
+        int inject;
+        Replay rp;
+    };
+
     for (int depth = 0; depth < max_depth && !frontier.empty(); ++depth)
     {
         std::vector<Node> next;
-        for (auto const& node : frontier)
+        size_t pos = 0;
+        while (pos < frontier.size())
         {
             if (R.expired())
                 return;
-            // how many interactions will the next call execute for each injection count?
-            for (int inject = 0; inject <= 2; ++inject)
+            // ---- batch of nodes: learn the number of interactions of each (node, inject)
+            size_t const batch_begin = pos;
+            std::vector<Probe> probes;
+            size_t est = 0;
+            while (pos < frontier.size() && est < 6000)
             {
-                if (node.primaries + inject > max_primaries)
-                    continue;
-                if (node.h.empty() && inject == 0)
-                    continue;  // nothing to transport
-                History probe = node.h;
-                probe.push_back({inject, {}});
-                // run the probe op with default choices to learn the number of queries
-                Replay pr;
+                auto const& node = frontier[pos];
+                for (int inject = 0; inject <= 2; ++inject)
                 {
-                    // the default-choice execution IS one of the transitions (all die+0)
-                    sys.P->recorder->steps.clear();
-                    pr = sys.replay(probe, false, false);
+                    if (node.primaries + inject > max_primaries)
+                        continue;
+                    if (node.h.empty() && inject == 0)
+                        continue;  // nothing to transport
+                    probes.push_back({pos, inject, {}});
+                    // at most `slots` interactions per call
+                    size_t m = 1;
+                    for (unsigned k = 0; k < cfg.slots; ++k)
+                        m *= NLET;
+                    est += m;
                 }
-                if (pr.overflow)
+                ++pos;
+            }
+            R.begin_case(cname + "|" + to_string(frontier[batch_begin].h) + " (batch of "
+                             + std::to_string(pos - batch_begin) + " nodes)",
+                         900);
+            parallel_for(probes.size(), nthreads, [&](size_t i, unsigned t) {
+                History probe = frontier[probes[i].node].h;
+                probe.push_back({probes[i].inject, {}});
+                std::string id = cname + "|" + to_string(probe);
+                strncpy(t_case, id.c_str(), sizeof(t_case) - 1);
+                // the default-choice execution IS one of the transitions (all die+0)
+                probes[i].rp = sys[t]->replay(probe, false);
+            });
+            bool asan_seen = false;
+            auto stop_if_asan = [&] {
+                if (!asan_seen)
+                    return;
+                // the heap may be corrupted (recover mode): end the run in an orderly way
+                R.end_case();
+                R.cap_hit("run stopped after the first batch with an AddressSanitizer report");
+                int rc = R.finish();
+                fflush(nullptr);
+                _exit(rc);
+            };
+            std::vector<Task> tasks;
+            // successor sets of the nodes of this batch, per injection count
+            std::map<std::pair<size_t, int>, std::set<std::string>> succ_now;
+            for (auto& pr : probes)
+            {
+                R.count("transitions", pr.rp.transitions);
+                if (pr.rp.asan)
+                {
+                    History probe = frontier[pr.node].h;
+                    probe.push_back({pr.inject, {}});
+                    R.violation("tracks:asan-report", cname + "|" + to_string(probe),
+                                cname + ": AddressSanitizer reported an error while this history "
+                                        "(or one evaluated concurrently) ran");
+                    asan_seen = true;
+                    continue;
+                }
+                if (pr.rp.overflow)
+                {
+                    // all-die choices: the queue cannot grow during the call, so the capacity
+                    // was exceeded by the primaries themselves and every child is cut
+                    R.tag("overflow-cut");
+                    succ_now[{pr.node, pr.inject}].insert("#overflow");
+                    continue;
+                }
+                if (pr.rp.canon.empty())
+                {
+                    // the probe call threw although nothing was exceeded (or threw something
+                    // unexpected): report here, the children cannot be evaluated
+                    History probe = frontier[pr.node].h;
+                    probe.push_back({pr.inject, {}});
+                    std::string cid = cname + "|" + to_string(probe);
+                    auto bar = pr.rp.error.find('|');
+                    R.violation(pr.rp.error.substr(0, bar), cid,
+                                cname + ": " + pr.rp.error.substr(bar + 1));
+                    continue;
+                }
+                std::vector<std::vector<int>> all;
+                enumerate_choices(pr.rp.last_queries, &all);
+                for (auto& ch : all)
+                    tasks.push_back({pr.node, pr.inject, std::move(ch), {}});
+            }
+            stop_if_asan();
+            // ---- evaluate every child (parallel), then judge in enumeration order
+            parallel_for(tasks.size(), nthreads, [&](size_t i, unsigned t) {
+                History h2 = frontier[tasks[i].node].h;
+                h2.push_back({tasks[i].inject, tasks[i].choices});
+                std::string id = cname + "|" + to_string(h2);
+                strncpy(t_case, id.c_str(), sizeof(t_case) - 1);
+                tasks[i].rp = sys[t]->replay(h2, true);
+            });
+            for (auto& tk : tasks)
+            {
+                auto const& node = frontier[tk.node];
+                History h2 = node.h;
+                h2.push_back({tk.inject, tk.choices});
+                std::string cid = cname + "|" + to_string(h2);
+                Replay& rp = tk.rp;
+                R.count("evaluations");
+                R.count("transitions", rp.transitions);
+                R.count("drain_steps", rp.drain_steps);
+                if (!checked_determinism)
+                {
+                    Replay again = sys[0]->replay(h2, true);
+                    if (again.canon != rp.canon || again.error != rp.error)
+                        R.harness_error("replay of the same history is not deterministic: " + cid);
+                    checked_determinism = true;
+                }
+                if (rp.asan)
+                {
+                    R.violation("tracks:asan-report", cid,
+                                cname + ": AddressSanitizer reported an error while this history "
+                                        "(or one evaluated concurrently) ran");
+                    asan_seen = true;
+                }
+                if (rp.exact_fit)
+                    R.tag("capacity:exact-fit-reached");
+                if (rp.unchanged_after_emission)
+                    R.tag("letter:unchanged-after-emission");
+                if (!rp.error.empty())
+                {
+                    auto bar = rp.error.find('|');
+                    R.violation(rp.error.substr(0, bar), cid,
+                                cname + ": " + rp.error.substr(bar + 1));
+                }
+                if (rp.overflow)
                 {
                     R.tag("overflow-cut");
+                    succ_now[{tk.node, tk.inject}].insert("#overflow");
                     continue;
                 }
-                int nq = pr.last_queries;
-                std::vector<std::vector<int>> all;
-                enumerate_choices(nq, &all);
-                for (auto const& ch : all)
+                if (rp.canon.empty())
+                    continue;  // spurious error before the end of the history (reported)
+                succ_now[{tk.node, tk.inject}].insert(rp.canon);
+                R.maxi("max_drain_steps", rp.steps_to_drain);
+                R.outcome(vf::hash_str(rp.canon));
+                R.state(vf::hash_mix(vf::hash_str(cname), vf::hash_str(rp.canon)));
+                int& times = seen[rp.canon];
+                ++times;
+                if (times <= 2)
                 {
-                    uint64_t idx = (*shard_index)++;
-                    if (!R.mine(idx))
-                        continue;
-                    History h2 = node.h;
-                    h2.push_back({inject, ch});
-                    std::string cid = cname + "|" + to_string(h2);
-                    R.begin_case(cid, 60);
-                    Replay rp = sys.replay(h2, true, false);
-                    R.count("evaluations");
-                    if (!checked_determinism)
-                    {
-                        Replay again = sys.replay(h2, true, false);
-                        if (again.canon != rp.canon || again.error != rp.error)
-                            R.harness_error("replay of the same history is not deterministic: "
-                                            + cid);
-                        checked_determinism = true;
-                    }
-                    if (rp.overflow)
-                    {
-                        R.tag("overflow-cut");
-                        R.end_case();
-                        continue;
-                    }
-                    if (!rp.error.empty())
-                    {
-                        auto bar = rp.error.find('|');
-                        R.violation(rp.error.substr(0, bar), cid,
-                                    cname + ": " + rp.error.substr(bar + 1));
-                    }
-                    R.maxi("max_drain_steps", rp.steps_to_drain);
-                    R.outcome(vf::hash_str(rp.canon));
-                    bool fresh = R.state(vf::hash_mix(vf::hash_str(cname), vf::hash_str(rp.canon)));
-                    int& times = seen[rp.canon];
-                    ++times;
-                    if (times <= 2)
-                    {
-                        // expand the first two histories of each canon (bisimulation test)
-                        next.push_back({h2, node.primaries + inject});
-                        if (times == 2)
-                            R.count("bisimulation_pairs");
-                    }
-                    (void)fresh;
-                    R.end_case();
+                    // expand the first two histories of each canon (bisimulation test)
+                    next.push_back({h2, node.primaries + tk.inject, rp.canon, times});
                 }
             }
+            stop_if_asan();
+            // ---- bisimulation: equal canon => equal successor sets, per injection count
+            for (auto& kv : succ_now)
+            {
+                auto const& node = frontier[kv.first.first];
+                int const inject = kv.first.second;
+                if (node.occurrence == 1)
+                {
+                    auto& s = succ_of[node.canon][inject];
+                    s.insert(kv.second.begin(), kv.second.end());
+                }
+            }
+            for (auto& kv : succ_now)
+            {
+                auto const& node = frontier[kv.first.first];
+                int const inject = kv.first.second;
+                if (node.occurrence != 2)
+                    continue;
+                auto it = succ_of.find(node.canon);
+                if (it == succ_of.end())
+                    continue;  // the first history was at the depth bound: not expanded
+                auto jt = it->second.find(inject);
+                if (jt == it->second.end())
+                    continue;  // primaries bound differed
+                R.count("bisimulation_pairs");
+                if (jt->second != kv.second && mismatch->text.empty())
+                {
+                    std::string a, b;
+                    for (auto const& s : jt->second)
+                        if (!kv.second.count(s))
+                            a += s + " ";
+                    for (auto const& s : kv.second)
+                        if (!jt->second.count(s))
+                            b += s + " ";
+                    mismatch->text = fmt("%s: canon %s, %d primaries: second history %s has "
+                                         "successors {%s} that the first lacks and lacks {%s}",
+                                         cname.c_str(), node.canon.c_str(), inject,
+                                         to_string(node.h).c_str(), b.c_str(), a.c_str());
+                }
+            }
+            R.end_case();
         }
         R.maxi("depth_completed", depth + 1);
+        fprintf(stderr, "[c02] %s depth %d: %zu nodes expanded, %zu kept, %llu evaluations so far, %.1f s\n",
+                cname.c_str(), depth + 1, frontier.size(), next.size(),
+                (unsigned long long)R.counter("evaluations"), R.elapsed());
         frontier.swap(next);
     }
     if (!frontier.empty())
@@ -589,36 +1014,80 @@ static void search(vf::Run& R, Config cfg, int max_depth, int max_primaries, uin
 int main(int argc, char** argv)
 {
     vf::Run R(argc, argv, "C02", "c02_tracks");
+    for (int sig : {SIGSEGV, SIGBUS, SIGFPE, SIGILL, SIGABRT})
+        signal(sig, on_fatal_mt);
+#if defined(__SANITIZE_ADDRESS__)
+    __sanitizer_set_death_callback(on_asan_death);
+    g_run = &R;
+    __asan_set_error_report_callback(on_asan_report);
+#endif
     bool const thorough = R.thorough();
-    std::vector<Config> cfgs;
-    std::vector<TrackOrder> orders = {TrackOrder::none, TrackOrder::init_charge,
-                                      TrackOrder::reindex_status, TrackOrder::reindex_particle_type,
-                                      TrackOrder::reindex_shuffle};
-    // smallest configurations first, so that a deadline cuts the largest ones
-    for (unsigned s : {1u, 2u, 3u})
-        for (unsigned q : {s, 2 * s, 16u})
-            for (auto o : orders)
-            {
-                if (!thorough && q == 16u && s > 1)
-                    continue;
-                if (!thorough && s == 3 && (o != TrackOrder::none && o != TrackOrder::init_charge))
-                    continue;
-                cfgs.push_back({s, q, o});
-            }
-    if (thorough)
-        for (auto o : orders)
-            cfgs.push_back({4, 8, o});
-    uint64_t shard_index = 0;
-    for (auto const& c : cfgs)
+    unsigned nthreads = std::thread::hardware_concurrency();
+    if (char const* e = getenv("VERIF_THREADS"))
+        nthreads = unsigned(atoi(e));
+    if (nthreads < 1)
+        nthreads = 1;
+    if (nthreads > 16)
+        nthreads = 16;
+    if (R.nshards() != 1)
+        R.harness_error("this harness is parallel inside one process: configure shards = 1");
+    // Configuration lattice with its depth bound (0 = not run in this tier).  The search below
+    // a configuration is complete up to the bound; 'fixpoint:' tags mark configurations whose
+    // frontier emptied before it (all of Q <= 2S do: the primaries bound makes them finite).
+    // Costs (evaluations) were measured per configuration; the largest come last so that a
+    // deadline cuts those.
+    struct Plan
     {
-        int depth = thorough ? (c.slots <= 2 ? 6 : c.slots == 3 ? 4 : 3)
-                             : (c.slots == 1 ? 5 : c.slots == 2 ? 3 : 2);
-        search(R, c, depth, /*max_primaries=*/thorough ? 4 : 3, &shard_index);
+        Config cfg;
+        int depth;
+    };
+    std::vector<Plan> plan;
+    TrackOrder const none = TrackOrder::none, charge = TrackOrder::init_charge,
+                     status = TrackOrder::reindex_status, ptype = TrackOrder::reindex_particle_type,
+                     shuffle = TrackOrder::reindex_shuffle;
+    std::vector<TrackOrder> const all = {none, charge, status, ptype, shuffle};
+    auto add = [&](unsigned s, unsigned q, std::vector<TrackOrder> const& orders, int depth) {
+        for (auto o : orders)
+            plan.push_back({{s, q, o}, depth});
+    };
+    if (!thorough)
+    {
+        add(1, 1, all, 5);
+        add(1, 2, all, 5);
+        add(1, 16, all, 4);
+        add(2, 2, {none, charge, status}, 4);
+        add(2, 4, {none, charge}, 2);
+        add(3, 3, {none}, 2);
+    }
+    else
+    {
+        add(1, 1, all, 6);
+        add(1, 2, all, 6);
+        add(1, 16, all, 6);
+        add(2, 2, all, 6);
+        add(2, 4, all, 6);
+        add(2, 16, {status, ptype, shuffle}, 2);
+        add(2, 16, {none, charge}, 3);
+        add(3, 3, all, 2);
+        add(3, 6, {none, charge}, 2);
+        add(3, 16, {none}, 2);
+        add(4, 8, {none}, 2);
+    }
+    Mismatch mismatch;
+    char const* only = getenv("VERIF_C02_CONFIG");  // development aid: one configuration
+    for (auto const& pl : plan)
+    {
+        if (only && pl.cfg.name() != only)
+            continue;
+        search(R, pl.cfg, pl.depth, /*max_primaries=*/thorough ? 4 : 3, nthreads, &mismatch);
         if (R.expired())
             break;
     }
-    R.sample("S=2,Q=4,ord=0|i1:5/i1:53/i0:02/ = 2 slots, capacity 4: step 1 one primary "
-             "(survive + e- + gamma), step 2 one more primary, outcomes 5 and 3, step 3 ...; "
-             "then drained with all-die and checked against the ledger");
+    R.sample("S=2,Q=4,ord=0|i1:5/i2:53a/i0:02/ = 2 slots, capacity 4: call 1 one primary of event 0 "
+             "(survive + e- + gamma), call 2 two more primaries (events 1 and 0), outcomes 5, 3 and "
+             "'unchanged', call 3 ...; then drained with all-die and checked against the ledger");
+    if (!mismatch.text.empty() && R.num_violations() == 0)
+        R.harness_error("canon is not a bisimulation (equal canon, different successor sets): "
+                        + mismatch.text);
     return R.finish();
 }
